@@ -105,10 +105,11 @@ theorem C03_hoist_guard (call : Instr) (h : isPureBuiltin call = true) :
 /-- the closed forms of two loops differ in text as soon as the loops' labels differ (fix "an
     induction variable's closed form names the loop it runs with") -/
 theorem C03_recurrences_of_different_loops_differ {σ : Type} (lbl : Nat → String) (r : Val → σ → String × σ)
-    (a b : SCEV) (h₁ h₂ : Nat) (st : σ) (hl : lbl h₁ ≠ lbl h₂) (hne1 : lbl h₁ ≠ "") (hne2 : lbl h₂ ≠ "") :
-    ((SCEV.addRec a b h₁).render lbl r st).1 ≠ ((SCEV.addRec a b h₂).render lbl r st).1 := by
+    (a b : SCEV) (h₁ h₂ : Nat) (t : String) (st : σ) (hl : lbl h₁ ≠ lbl h₂) (hne1 : lbl h₁ ≠ "") (hne2 : lbl h₂ ≠ "") :
+    ((SCEV.addRec a b h₁ t).render lbl r st).1 ≠ ((SCEV.addRec a b h₂ t).render lbl r st).1 := by
   simp only [SCEV.render]
   intro heq
+  rw [String.append_left_inj] at heq
   rw [String.append_right_inj] at heq
   have e1 : (lbl h₁ == "") = false := by simpa using hne1
   have e2 : (lbl h₂ == "") = false := by simpa using hne2
@@ -116,6 +117,22 @@ theorem C03_recurrences_of_different_loops_differ {σ : Type} (lbl : Nat → Str
   simp only [Bool.false_eq_true, if_false] at heq
   rw [String.append_right_inj] at heq
   exact hl heq
+
+/-- the closed forms of two variables of the same loop with the same start and step differ in text
+    as soon as the variables' types differ (fix "an induction variable's closed form names the type
+    it wraps around in"): a `uint8` counter is not an `int` counter -/
+theorem C03_recurrences_of_different_types_differ {σ : Type} (lbl : Nat → String) (r : Val → σ → String × σ)
+    (a b : SCEV) (h : Nat) (t₁ t₂ : String) (st : σ) (ht : t₁ ≠ t₂) (hne1 : t₁ ≠ "") (hne2 : t₂ ≠ "") :
+    ((SCEV.addRec a b h t₁).render lbl r st).1 ≠ ((SCEV.addRec a b h t₂).render lbl r st).1 := by
+  simp only [SCEV.render]
+  intro heq
+  rw [String.append_right_inj] at heq
+  have e1 : (t₁ == "") = false := by simpa using hne1
+  have e2 : (t₂ == "") = false := by simpa using hne2
+  rw [e1, e2] at heq
+  simp only [Bool.false_eq_true, if_false] at heq
+  rw [String.append_right_inj] at heq
+  exact ht heq
 
 /-- an external function reference carries its qualified name: two different callees never print
     alike (fix "function references … carry package path and receiver") -/
